@@ -225,7 +225,53 @@ def harness(cfg, ns):
 
 
 # ---------------------------------------------------------------------------------------------
+def real_checks(tier):
+    """concrete cross-checks of what real arithmetic cannot see: rounding of start + pivot / end + pivot.
+    (An IEEE-mode solver configuration for this loop was built and withdrawn: z3 finds violations in seconds but cannot close the
+    unsat side - `(e + p) - (s + p) > 1e-6` from `e - s > 2e-6`, |values| <= 64, is still `unknown` after 600 s of bit-blasting.)"""
+    return [dict(kind="shift-rounding", variant="ordinary", name="shuffle samples of references with ordinary durations at large offsets stay valid after rounding"),
+            dict(kind="shift-rounding", variant="near-precision", name="shuffle samples of a reference holding a unit within rounding distance of the precision")]
+
+
+def _shift_rounding(variant):
+    import numpy as np
+    import pygamma_agreement as pa
+    import pyannote.core.segment as pseg
+    from pyannote.core import Segment
+    bad = []
+    if variant == "near-precision":
+        refs = [[("a", 0.0, 1.0000000001e-6, "x"), ("a", 10.0, 20.0, "y"), ("b", 1.0, 1.0000010000001, "x"), ("b", 12.0, 30.0, "y")]]
+    else:
+        refs = [[("a", 1e6 + 0.001 * k, 1e6 + 0.001 * k + 0.0015, "x") for k in range(0, 40, 3)] + [("b", 1e6 + 0.01 * k, 1e6 + 0.01 * k + 0.002, "y") for k in range(5)],
+                [("a", 1.7e9 + 3.0 * k, 1.7e9 + 3.0 * k + 1e-3, "x") for k in range(6)] + [("b", 1.7e9 + 2.5 * k, 1.7e9 + 2.5 * k + 0.5, "y") for k in range(6)],
+                [("a", 0.1 * k, 0.1 * k + 2e-6, "x") for k in range(8)] + [("b", 0.1 * k + 0.05, 0.1 * k + 0.05 + 5e-6, "y") for k in range(8)]]
+    for r, ref in enumerate(refs):
+        c = pa.Continuum()
+        for a, s_, e_, lab in ref:
+            c.add(a, Segment(s_, e_), lab)
+        for pt in ("float_pivot", "int_pivot"):
+            smp = pa.ShuffleContinuumSampler(pivot_type=pt)
+            smp.init_sampling(c, None)
+            for seed in range(25):
+                np.random.seed(1600 + seed)
+                try:
+                    out = smp.sample_from_continuum
+                except Exception as ex:     # noqa: BLE001
+                    bad.append(f"reference {r} ({pt}, seed {1600 + seed}): raised {ex!r}"[:200])
+                    break
+                # each sampled annotator is a shifted copy of one reference annotator: valid units, a unit count that the reference has
+                ref_counts = {len(c._annotations[x]) for x in c.annotators}
+                counts = [len(out._annotations[x]) for x in out.annotators]
+                if any(not (u.segment.end - u.segment.start > pseg.SEGMENT_PRECISION) for _, u in out) or len(counts) != len(list(c.annotators)) \
+                        or any(k not in ref_counts for k in counts):
+                    bad.append(f"reference {r} ({pt}, seed {1600 + seed}): invalid sample (units per sampled annotator {counts}, reference has {sorted(ref_counts)})")
+                    break
+    return dict(reproduced=bool(bad), detail="; ".join(bad[:3]))
+
+
 def replay(case):
+    if case.get("kind") == "shift-rounding":
+        return _shift_rounding(case["variant"])
     import numpy as np
     import pygamma_agreement as pa
     from pygamma_agreement.sampler import ShuffleContinuumSampler
